@@ -1,0 +1,8 @@
+//go:build verif
+
+package dkv
+
+import "reduction.dev/reduction/dkv/kv"
+
+// VerifDataOwnershipC05 returns the DataOwnership the database was opened with (verification harness only).
+func (db *DB) VerifDataOwnershipC05() kv.DataOwnership { return db.dataOwnership }
